@@ -12,7 +12,9 @@ import (
 	gcmd "github.com/google/gce-tcb-verifier/gcetcbendorsement/cmd"
 	epb "github.com/google/gce-tcb-verifier/proto/endorsement"
 	"github.com/google/gce-tcb-verifier/verify"
+	cpb "github.com/google/go-sev-guest/proto/check"
 	sgvalidate "github.com/google/go-sev-guest/validate"
+	tcpb "github.com/google/go-tdx-guest/proto/checkconfig"
 	tdvalidate "github.com/google/go-tdx-guest/validate"
 	tpmpb "github.com/google/go-tpm-tools/proto/attest"
 	"google.golang.org/protobuf/proto"
@@ -253,6 +255,20 @@ func runC02(r *core.Run) {
 			var err error
 			name := ""
 			digestUsed := false
+			// an optional caller base policy carrying a stale (not endorsed) measurement
+			var basePol *cpb.Policy
+			overwrite := false
+			staleMeas := bytes.Repeat([]byte{0xEE}, 48)
+			if r.Chance(30, "base-policy?") {
+				basePol = &cpb.Policy{MinimumVersion: "0.0", Policy: ProdPolicy}
+				if r.Bool("base-has-measurement") {
+					basePol.Measurement = staleMeas
+				}
+				overwrite = r.Bool("policy-overwrite")
+				if r.Chance(40, "report-carries-stale") {
+					meas, measClass = staleMeas, "base-policy-stale"
+				}
+			}
 			func() {
 				defer func() {
 					if p := recover(); p != nil {
@@ -275,16 +291,16 @@ func runC02(r *core.Run) {
 					err = f(SnpAttestation(meas, nil), nil)
 				case 3:
 					name = "SevValidate/extras"
-					err = gcetcbendorsement.SevValidate(ctx, SnpAttestation(meas, endorsement), &gcetcbendorsement.SevValidateOptions{RootsOfTrust: roots, Now: now, ExpectedLaunchVmsas: named})
+					err = gcetcbendorsement.SevValidate(ctx, SnpAttestation(meas, endorsement), &gcetcbendorsement.SevValidateOptions{RootsOfTrust: roots, Now: now, ExpectedLaunchVmsas: named, BasePolicy: basePol, Overwrite: overwrite})
 				case 4:
 					name = "SevValidate/given"
-					err = gcetcbendorsement.SevValidate(ctx, SnpAttestation(meas, nil), &gcetcbendorsement.SevValidateOptions{Endorsement: le, RootsOfTrust: roots, Now: now, ExpectedLaunchVmsas: named})
+					err = gcetcbendorsement.SevValidate(ctx, SnpAttestation(meas, nil), &gcetcbendorsement.SevValidateOptions{Endorsement: le, RootsOfTrust: roots, Now: now, ExpectedLaunchVmsas: named, BasePolicy: basePol, Overwrite: overwrite})
 				case 5:
 					name = "SevPolicy+validate"
 					if named == 0 {
 						named, cfgClass = counts[0], "listed"
 					}
-					pol, perr := gcetcbendorsement.SevPolicy(ctx, le, &gcetcbendorsement.SevPolicyOptions{LaunchVmsas: named})
+					pol, perr := gcetcbendorsement.SevPolicy(ctx, le, &gcetcbendorsement.SevPolicyOptions{LaunchVmsas: named, Base: basePol, Overwrite: overwrite})
 					if perr != nil {
 						err = perr
 						break
@@ -390,6 +406,19 @@ func runC02(r *core.Run) {
 		entry := r.Intn(3, "tdx-entry")
 		var err error
 		name := ""
+		var basePol *tcpb.Policy
+		overwrite := false
+		staleMrtd := bytes.Repeat([]byte{0xEE}, 48)
+		if entry != 2 && r.Chance(35, "tdx-base-policy?") {
+			basePol = &tcpb.Policy{TdQuoteBodyPolicy: &tcpb.TDQuoteBodyPolicy{}}
+			if r.Bool("base-has-any-mrtd") {
+				basePol.TdQuoteBodyPolicy.AnyMrTd = [][]byte{staleMrtd}
+			}
+			overwrite = r.Bool("tdx-overwrite")
+			if r.Chance(50, "quote-carries-stale") {
+				mrtd, measClass = staleMrtd, "base-policy-stale"
+			}
+		}
 		func() {
 			defer func() {
 				if p := recover(); p != nil {
@@ -401,10 +430,10 @@ func runC02(r *core.Run) {
 			switch entry {
 			case 0:
 				name = "TdxValidate"
-				err = gcetcbendorsement.TdxValidate(ctx, TdxQuoteRaw(quote), &gcetcbendorsement.TdxValidateOptions{Endorsement: le, RootsOfTrust: roots, Now: now, ExpectedRAMGiB: ram})
+				err = gcetcbendorsement.TdxValidate(ctx, TdxQuoteRaw(quote), &gcetcbendorsement.TdxValidateOptions{Endorsement: le, RootsOfTrust: roots, Now: now, ExpectedRAMGiB: ram, BasePolicy: basePol, Overwrite: overwrite})
 			case 1:
 				name = "TdxPolicy+validate"
-				pol, perr := gcetcbendorsement.TdxPolicy(ctx, le, &gcetcbendorsement.TdxPolicyOptions{RAMGiB: ram})
+				pol, perr := gcetcbendorsement.TdxPolicy(ctx, le, &gcetcbendorsement.TdxPolicyOptions{RAMGiB: ram, Base: basePol, Overwrite: overwrite})
 				if perr != nil {
 					err = perr
 					break
